@@ -1113,3 +1113,37 @@ def from_heap(fns, src, nmax, which='try_from_vec', name=None):
     if seen != {'ok', 'err'}:
         res.verdict, res.reason = 'inconclusive', 'vacuity: outcomes seen %s' % sorted(seen)
     return finish(res, ex, t0, paths, unw)
+
+
+# ----------------------------------------------------------------------------------------------- C04: an overridden Clone::clone_from
+@guarded
+def clone_from(fns, src, nmax, name=None):
+    """`a.clone_from(&b)`: whatever happens (T::clone may panic at every call), the caller still owns a fully initialised `a` and `b`
+    afterwards, every old element of `a` that was replaced was dropped exactly once and no clone is lost. The trait's default
+    (`*self = source.clone()`) is covered by the `clone` scenario; this one runs the crate's own override if there is one."""
+    N, J = syms('N', 'J')
+    res = Result(name or 'clone_from', ['C04'], 'N <= %d, T::clone may panic at every call' % nmax)
+    ex = Exec(fns, src, J, N, nmax=nmax)
+    ex.V = Arr('Cl', bv(2 ** 63))
+    t0, paths, unw = time.time(), 0, 0
+    key = ('Clone', 'GenericArray', 'clone_from')
+    if key not in ex.index:
+        res.bounds += '; the crate does not override clone_from (trait default: `*self = source.clone()`, see scenario clone)'
+        return finish(res, ex, t0, 0, 0)
+    A, B = Arr('Dest', N), Arr('Source', N)
+    st = new_state()
+    bounded(ex, st, N, nmax)
+    st.status[A] = LIVE
+    st.status[B] = LIVE
+    fn = ex.pick(ex.index[key])
+    for (s2, kind, val) in ex.run_fn(st, fn, [with_prov(ArrRef(A), 'mut'), with_prov(ArrRef(B), 'shared')]):
+        paths += 1
+        unw += kind == 'unwind'
+        inA = ULT(J, N)
+        ex.require(s2, z3.Implies(inA, ex.stat(s2, A) == LIVE), 'clone_from leaves a slot of the receiver dead or uninitialised: its owner will drop it again (double drop)', 'end(%s)' % kind)
+        ex.require(s2, z3.Implies(inA, ex.stat(s2, B) == LIVE), 'clone_from consumed or dropped an element of its source', 'end(%s)' % kind)
+        ex.require(s2, ex.stat(s2, ex.V) != HELD, 'a clone was lost (neither stored nor dropped)', 'end(%s)' % kind)
+        for arr, stt in s2.status.items():
+            if arr.name.startswith('Moved'):
+                ex.require(s2, z3.Implies(inA, z3.Or(stt == UNINIT, stt == DROPPED)), 'the replaced elements of the receiver were not dropped (leak)', 'end(%s)' % kind)
+    return finish(res, ex, t0, paths, unw)
